@@ -207,9 +207,19 @@ func (p Param) build() (interface{}, map[string]interface{}) {
 	case 5:
 		return &shapeTagged{p.s(0), p.i(0), p.f(0)}, map[string]interface{}{"a": p.s(0), "b": p.i(0), "c": p.f(0)}
 	case 6:
-		return shapeEmbeddedCtx{A: p.s(0)}, map[string]interface{}{"a": p.s(0)}
+		v := shapeEmbeddedCtx{A: p.s(0)}
+		if p.b(1) {
+			// the context object comes from an earlier prepare and still holds what that one left in it:
+			// the new branch registers its own tagged parameters, nothing else
+			v.BusinessActionContext.ActionContext = map[string]interface{}{"stale": p.s(1), "a": "from-an-earlier-prepare"}
+		}
+		return v, map[string]interface{}{"a": p.s(0)}
 	case 7:
-		return shapeCtxPtr{Ctx: &tm.BusinessActionContext{}, B: p.i(0)}, map[string]interface{}{"b": p.i(0)}
+		v := shapeCtxPtr{Ctx: &tm.BusinessActionContext{}, B: p.i(0)}
+		if p.b(1) {
+			v.Ctx.ActionContext = map[string]interface{}{"stale": p.s(1), "b": "from-an-earlier-prepare"}
+		}
+		return v, map[string]interface{}{"b": p.i(0)}
 	case 8:
 		return map[string]int64{"x": p.i(0)}, map[string]interface{}{}
 	case 9:
